@@ -391,7 +391,9 @@ func (e *Exec) applyContractFull(con *Contract, fn *ssa.Function, sig *types.Sig
 		}
 		t := e.evalSpecBool(cenv, ac.Clause.Expr, e.Con, "atcall")
 		e.oblige("atcall", ac.Clause.Label+"@"+short+caseLabel, ac.Clause.Text, ac.Clause.Props, "", t)
-		e.assume(t) // assert-then-assume: later obligations may use it as a lemma
+		if !knownFailing[e.Key+"#atcall["+ac.Clause.Label+"@"+short+caseLabel+"]"] {
+			e.assume(t) // assert-then-assume: later obligations may use it as a lemma (not if it is a known finding)
+		}
 	}
 	if con.Fatal {
 		e.oblige("nofatal", short+caseLabel, "call of "+short+" (terminates the process abnormally)", nil, "", "false")
